@@ -168,12 +168,26 @@ def table_v(ctx: Ctx, chk) -> None:
         chk.refute(rule, f"{init.fq}::initial protocol", "a new gateway does not start with protocol 1.4 in force (protocol, schema context) and version None", init.where)
 
 
+def _before(fn: ast.AST, a: ast.AST, b: ast.AST) -> bool:
+    """a comes before b in the function's tree (written-out / flattened code keeps the line numbers of its definition,
+    so order is read off the tree, not off lineno)."""
+    order: dict = {}
+
+    def walk(n):
+        order[id(n)] = len(order)
+        for ch in ast.iter_child_nodes(n):
+            walk(ch)
+
+    walk(fn)
+    return id(a) in order and id(b) in order and order[id(a)] < order[id(b)]
+
+
 def canon_sa(ctx: Ctx, cn: Canon, f, e: ast.expr) -> str:
     """Canonical text of e where `self.<attr>` that f assigns exactly once stands for the assigned value."""
     t = cn.canon(e)
     if isinstance(e, ast.Attribute) and isinstance(e.value, ast.Name) and e.value.id == "self":
         stores = [n for n in ctx.own_nodes(f) if isinstance(n, (ast.Assign, ast.AnnAssign)) and any(norm(x) == t for x in (n.targets if isinstance(n, ast.Assign) else [n.target]))]
-        if len(stores) == 1 and stores[0].value is not None and stores[0].lineno < e.lineno:
+        if len(stores) == 1 and stores[0].value is not None and _before(f.node, stores[0], e):
             return cn.canon(stores[0].value)
     return t
 
